@@ -63,6 +63,22 @@ def write_if_changed(path, content):
     return True
 
 
+def import_closure(module):
+    """project-local .lean files transitively imported by `module` (dotted name)"""
+    seen, todo = set(), [module]
+    while todo:
+        m = todo.pop()
+        rel = m.replace(".", "/") + ".lean"
+        if rel in seen or not os.path.exists(os.path.join(LEAN, rel)):
+            continue
+        seen.add(rel)
+        for line in open(os.path.join(LEAN, rel)):
+            mm = re.match(r"\s*(?:public\s+)?import\s+([A-Za-z0-9_.]+)", line)
+            if mm:
+                todo.append(mm.group(1))
+    return seen
+
+
 def digest(obj):
     return hashlib.sha256(json.dumps(obj, sort_keys=True, default=str).encode()).hexdigest()[:12]
 
@@ -114,10 +130,10 @@ class Ctx:
             except OSError:
                 pass
 
-    def prove(self, module, theorems, tests=(), extra_targets=()):
+    def prove(self, module, theorems, tests=(), extra_targets=(), driver_exe="driver"):
         """Build `module`, audit `theorems` (fully-qualified names).  Records obligations/discharged.
         Returns True iff everything is discharged."""
-        ok, log = self.lake_build([module, "driver"] + list(extra_targets))
+        ok, log = self.lake_build([module, driver_exe] + list(extra_targets))
         self.cov["checker_cmd"] = "cd lean && lake build %s && lake env lean <audit: #print axioms ...>" % module
         self.cov["obligations"] += len(theorems)
         self.cov.setdefault("obligation_names", []).extend(theorems)
@@ -128,16 +144,13 @@ class Ctx:
             self.broken.append(("proof", module, "lake build failed: " + " | ".join(errs)))
             # which theorems still elaborate is unknown -> none discharged
             return False
-        # source hygiene
+        # source hygiene over the import closure of the module (project files only)
         bad = []
-        for root in ("Claripy", "ClaripyProofs", "Driver"):
-            for dp, _, fns in os.walk(os.path.join(LEAN, root)):
-                for fn in fns:
-                    if fn.endswith(".lean"):
-                        src = strip_lean_comments(open(os.path.join(dp, fn)).read())
-                        m = FORBIDDEN.search(src)
-                        if m:
-                            bad.append("%s: %s" % (os.path.relpath(os.path.join(dp, fn), LEAN), m.group(0).strip()))
+        for rel in sorted(import_closure(module)):
+            src = strip_lean_comments(open(os.path.join(LEAN, rel)).read())
+            m = FORBIDDEN.search(src)
+            if m:
+                bad.append("%s: %s" % (rel, m.group(0).strip()))
         if bad:
             self.broken.append(("audit", module, "forbidden construct: " + "; ".join(bad[:5])))
             return False
@@ -166,11 +179,14 @@ class Ctx:
                 self.broken.append(("audit", module, "leanchecker rejected the module"))
         return good == len(theorems)
 
-    def driver(self, lines, timeout=600):
-        """Pipe request lines to the compiled line-protocol driver, return one output line per request."""
-        exe = os.path.join(LEAN, ".lake", "build", "bin", "driver")
+    def driver(self, lines, timeout=600, exe="driver"):
+        """Pipe request lines to a compiled line-protocol driver (driver | driver_vsa | driver_solver | driver_fs);
+        returns one output line per request.  Call ctx.lake_build([exe]) (or ctx.prove(..., driver_exe=exe)) first so the
+        executable is rebuilt from the current model sources."""
+        name = exe
+        exe = os.path.join(LEAN, ".lake", "build", "bin", name)
         if not os.path.exists(exe):
-            ok, log = self.lake_build(["driver"])
+            ok, log = self.lake_build([name])
             if not ok:
                 raise RuntimeError("driver does not build:\n" + log[-2000:])
         p = subprocess.run([exe], input="\n".join(lines) + "\n", capture_output=True, text=True, timeout=timeout)
